@@ -16,7 +16,7 @@
    Byte strings are [list N]; Go's nil and empty []byte are identified (they encode identically:
    hex "" / text ""), nil and empty []cid.Cid are NOT (null vs empty array): [option (list _)].  *)
 From Coq Require Import List NArith ZArith Bool String.
-From IpfsLog Require Import Model.Cbor Gen.Tables.
+From IpfsLog Require Import Model.Cbor Gen.Tables Gen.Guards.
 (* deps: keep this comment line directly after the Require line (lib/verif.py deps_of scans it) *)
 Import ListNotations.
 Local Open Scope string_scope.
@@ -40,6 +40,10 @@ Arguments Panic {A}.
 
 Definition bind {A B} (r : res A) (f : A -> res B) : res B :=
   match r with Ok a => f a | Err e => Err e | Panic => Panic end.
+
+(* a nil pointer reaching a dereference: a panic where Gen/Guards.v (regenerated from
+   io/jsonable/types.go) finds no dominating nil check, an error return where it finds one *)
+Definition on_nil {A} (panics : bool) : res A := if panics then Panic else Err EDeserialize.
 
 (* ---- small helpers ---- *)
 Fixpoint bytes_eqb (a b : bytes) : bool :=
@@ -407,39 +411,68 @@ Section Decode.
     | _ => Err EUnmarshal
     end.
 
-  (* Entry.ToPlain followed by SetHash(hash) *)
   Definition of_hex (e : err) (s : bytes) : res bytes :=
     match hex_decode s with Some b => Ok b | None => Err e end.
 
-  Definition to_plain (h : bytes) (j : jentry) : res entry :=
-    bind (of_hex EDeserialize (j_key j)) (fun key =>
-    bind (of_hex EDeserialize (j_sig j)) (fun sig =>
-    match j_clock j with
-    | None => Panic                                       (* c.Clock.ToPlain on nil *)
-    | Some c =>
-      bind (of_hex EDeserialize (jc_id c)) (fun cid =>
-      bind (match j_identity j with
-            | None => Ok None
-            | Some i =>
-              bind (of_hex EDeserialize (ji_pub i)) (fun pub =>
-              match ji_sigs i with
-              | None => Panic                             (* c.Signatures.ToPlain on nil *)
-              | Some s =>
-                bind (of_hex EDeserialize (js_pub s)) (fun spub =>
-                bind (of_hex EDeserialize (js_id s)) (fun sid =>
-                Ok (Some {| idn_id := ji_id i; idn_type := ji_type i; idn_pub := pub;
-                            idn_sigs := Some {| ids_id := sid; ids_pub := spub |} |})))
-              end)
-            end) (fun ident =>
-      Ok {| e_v := j_v j; e_logid := j_logid j; e_payload := j_payload j; e_next := j_next j;
-            e_refs := j_refs j; e_clock := Some {| clk_id := cid; clk_time := jc_time c |};
-            e_key := key; e_sig := sig; e_identity := ident; e_hash := Some h;
-            e_additional := [] |}))       (* AdditionalData is not restored: see Props/C08.v *)
-    end)).
+  (* Entry.ToPlain as it was before commit 7c07d71 (kept only for the regression witnesses in
+     Props/C08.v): AdditionalData was never restored *)
+  (* The conversions take the three "a nil pointer panics here" flags as parameters ([_g] versions);
+     the versions without suffix are instantiated with what Gen/Guards.v reports for today's text. *)
+  Section Guards.
+    Variables pc pi ps : bool.     (* nil Clock in Entry.ToPlain / nil Identity / nil Signatures panic *)
 
-  (* repaired variant (notes/C08.md): ToPlain puts the two stored strings back *)
-  Definition to_plain_fixed (h : bytes) (j : jentry) : res entry :=
-    bind (to_plain h j) (fun e =>
+    (* Identity.ToPlain (with IdentitySignature.ToPlain) under the nil check of Entry.ToPlain *)
+    Definition to_plain_identity_g (o : option jidentity) : res (option identity_rec) :=
+      match o with
+      | None => if pi then Panic else Ok None                             (* if c.Identity != nil *)
+      | Some i =>
+        bind (of_hex EDeserialize (ji_pub i)) (fun pub =>
+        match ji_sigs i with
+        | None => on_nil ps                                               (* c.Signatures.ToPlain() *)
+        | Some s =>
+          bind (of_hex EDeserialize (js_pub s)) (fun spub =>
+          bind (of_hex EDeserialize (js_id s)) (fun sid =>
+          Ok (Some {| idn_id := ji_id i; idn_type := ji_type i; idn_pub := pub;
+                      idn_sigs := Some {| ids_id := sid; ids_pub := spub |} |})))
+        end)
+      end.
+
+    Definition to_plain_before_fix_g (h : bytes) (j : jentry) : res entry :=
+      bind (of_hex EDeserialize (j_key j)) (fun key =>
+      bind (of_hex EDeserialize (j_sig j)) (fun sig =>
+      match j_clock j with
+      | None => on_nil pc                                                 (* c.Clock.ToPlain(clock) *)
+      | Some c =>
+        bind (of_hex EDeserialize (jc_id c)) (fun cid =>
+        bind (to_plain_identity_g (j_identity j)) (fun ident =>
+        Ok {| e_v := j_v j; e_logid := j_logid j; e_payload := j_payload j; e_next := j_next j;
+              e_refs := j_refs j; e_clock := Some {| clk_id := cid; clk_time := jc_time c |};
+              e_key := key; e_sig := sig; e_identity := ident; e_hash := Some h;
+              e_additional := [] |}))       (* AdditionalData was not restored *)
+      end)).
+
+    Definition to_plain_g (h : bytes) (j : jentry) : res entry :=
+      bind (to_plain_before_fix_g h j) (fun e =>
+      Ok {| e_v := e_v e; e_logid := e_logid e; e_payload := e_payload e; e_next := e_next e;
+            e_refs := e_refs e; e_clock := e_clock e; e_key := e_key e; e_sig := e_sig e;
+            e_identity := e_identity e; e_hash := e_hash e;
+            e_additional := if is_nil (j_enc_links j) && is_nil (j_enc_nonce j) then []
+                            else [(key_enc_links, j_enc_links j); (key_enc_nonce, j_enc_nonce j)] |}).
+  End Guards.
+
+  Definition guard_clock : bool := nil_panics "Entry.ToPlain" "Clock".
+  Definition guard_identity : bool := nil_panics "Entry.ToPlain" "Identity".
+  Definition guard_signatures : bool := nil_panics "Identity.ToPlain" "Signatures".
+
+  Definition to_plain_identity := to_plain_identity_g guard_identity guard_signatures.
+  (* Entry.ToPlain as it was before commit 7c07d71 (kept only for the regression witnesses in
+     Props/C08.v): AdditionalData was never restored *)
+  Definition to_plain_before_fix := to_plain_before_fix_g guard_clock guard_identity guard_signatures.
+
+  (* Entry.ToPlain followed by SetHash(hash).  Since 7c07d71 the two link strings stored in the block
+     are put back into AdditionalData (when at least one of them is non-empty). *)
+  Definition to_plain (h : bytes) (j : jentry) : res entry :=
+    bind (to_plain_before_fix h j) (fun e =>
     Ok {| e_v := e_v e; e_logid := e_logid e; e_payload := e_payload e; e_next := e_next e;
           e_refs := e_refs e; e_clock := e_clock e; e_key := e_key e; e_sig := e_sig e;
           e_identity := e_identity e; e_hash := e_hash e;
@@ -526,8 +559,13 @@ Section Decode.
     Definition of_tree (key : option K) (h : bytes) (t : cbor) : res entry :=
       bind (unmarshal_jentry t) (fun j => bind (decrypt_links key j) (to_plain h)).
 
-    Definition of_tree_fixed (key : option K) (h : bytes) (t : cbor) : res entry :=
-      bind (unmarshal_jentry t) (fun j => bind (decrypt_links key j) (to_plain_fixed h)).
+    (* the reader as it was before 7c07d71 *)
+    Definition of_tree_before_fix (key : option K) (h : bytes) (t : cbor) : res entry :=
+      bind (unmarshal_jentry t) (fun j => bind (decrypt_links key j) (to_plain_before_fix h)).
+    (* the reader with explicit guard flags (C12: [of_tree_g false false false] is the reader with
+       every nil check in place) *)
+    Definition of_tree_g (pc pi ps : bool) (key : option K) (h : bytes) (t : cbor) : res entry :=
+      bind (unmarshal_jentry t) (fun j => bind (decrypt_links key j) (to_plain_g pc pi ps h)).
   End Links.
 
   (* default codec: no key; the crypto parameters are never consulted *)
@@ -554,12 +592,22 @@ End Decode.
 (* ---- what a write followed by a read preserves: everything except
         - the hash, which is set to the identifier asked for,
         - refs of entries with v <= 1 (Normalize does not write them),
-        - AdditionalData (never restored by ToPlain); when it carried both link-encryption strings
-          and the reader has no key, the links are gone as well. ---- *)
+        - AdditionalData other than the two link strings (only those are stored, and only when
+          both are present, v > 1, and at least one is non-empty); when both were present and
+          the reader has no key, the links are gone as well (they were written as []). ---- *)
 Definition has_enc (e : entry) : bool :=
   match assoc key_enc_links (e_additional e), assoc key_enc_nonce (e_additional e) with
   | Some _, Some _ => 1 <? e_v e
   | _, _ => false
+  end.
+
+(* the part of AdditionalData that is stored in the block and restored by ToPlain *)
+Definition enc_pair (e : entry) : list (bytes * bytes) :=
+  match assoc key_enc_links (e_additional e), assoc key_enc_nonce (e_additional e) with
+  | Some l, Some n => if 1 <? e_v e then
+                        if is_nil l && is_nil n then [] else [(key_enc_links, l); (key_enc_nonce, n)]
+                      else []
+  | _, _ => []
   end.
 
 Definition normal (h : bytes) (e : entry) : entry :=
@@ -567,13 +615,19 @@ Definition normal (h : bytes) (e : entry) : entry :=
      e_next := if has_enc e then Some [] else e_next e;
      e_refs := if has_enc e then Some [] else if 1 <? e_v e then e_refs e else None;
      e_clock := e_clock e; e_key := e_key e; e_sig := e_sig e; e_identity := e_identity e;
-     e_hash := Some h; e_additional := [] |}.
+     e_hash := Some h; e_additional := enc_pair e |}.
 
-(* what a read with the right link key preserves: everything but the hash and AdditionalData *)
+(* what a read with the right link key preserves: the links too *)
 Definition strip_additional (h : bytes) (e : entry) : entry :=
   {| e_v := e_v e; e_logid := e_logid e; e_payload := e_payload e; e_next := e_next e; e_refs := e_refs e;
      e_clock := e_clock e; e_key := e_key e; e_sig := e_sig e; e_identity := e_identity e;
-     e_hash := Some h; e_additional := [] |}.
+     e_hash := Some h; e_additional := enc_pair e |}.
+
+(* before 7c07d71: AdditionalData came back empty *)
+Definition drop_additional (e : entry) : entry :=
+  {| e_v := e_v e; e_logid := e_logid e; e_payload := e_payload e; e_next := e_next e; e_refs := e_refs e;
+     e_clock := e_clock e; e_key := e_key e; e_sig := e_sig e; e_identity := e_identity e;
+     e_hash := e_hash e; e_additional := [] |}.
 
 (* ---- well-formed entries: what the round trip needs ---- *)
 Definition is_bytes (bs : bytes) : bool := forallb (fun b => b <? 256) bs.
@@ -631,14 +685,14 @@ Section V0.
             v0_key := hex_encode (e_key e); v0_sig := hex_encode (e_sig e) |}
     end.
 
-  (* EntryV0.ToPlain then pb.DecodeRawEntry's SetHash(hash) *)
-  Definition v0_to_plain (h : bytes) (j : jentry_v0) : res entry :=
+  (* EntryV0.ToPlain then pb.DecodeRawEntry's SetHash(hash); [ph pc0]: a nil Hash / nil Clock panics *)
+  Definition v0_to_plain_g (ph pc0 : bool) (h : bytes) (j : jentry_v0) : res entry :=
     bind (match v0_hash j with
-          | None => Ok tt
+          | None => if ph then Panic else Ok tt                               (* if e.Hash != nil *)
           | Some s => match cid_parse s with Some _ => Ok tt | None => Err EDeserialize end
           end) (fun _ =>
     match v0_clock j with
-    | None => Panic                                         (* e.Clock.ToPlain on nil *)
+    | None => on_nil pc0                                      (* e.Clock.ToPlain(clock) *)
     | Some c =>
       bind (of_hex EDeserialize (jc_id c)) (fun cid =>
       bind (of_hex EDeserialize (v0_sig j)) (fun sig =>
@@ -651,6 +705,8 @@ Section V0.
               e_key := key; e_sig := sig; e_identity := None; e_hash := Some h; e_additional := [] |}
       end)))
     end).
+
+  Definition v0_to_plain := v0_to_plain_g (nil_panics "EntryV0.ToPlain" "Hash") (nil_panics "EntryV0.ToPlain" "Clock").
 
   Definition normal_v0 (h : bytes) (e : entry) : entry :=
     {| e_v := e_v e; e_logid := e_logid e; e_payload := e_payload e;
